@@ -140,11 +140,51 @@ ATTR_NAMES = {
 }
 
 
+def annot_category(hints: dict, name: str) -> str:
+    """Syntactic category of an annotation, read WITHOUT `get_attr_type` (independent restatement of its domain)."""
+    import collections.abc
+    import typing
+
+    import onnx_ir as ir
+
+    base = {int: "int", float: "float", str: "str", bool: "bool", ir.Tensor: "tensor", ir.TensorProtocol: "tensor",
+            ir.Graph: "graph", ir.GraphProtocol: "graph"}
+    if name not in hints:
+        return "missing"
+    t = hints[name]
+    try:
+        if t in base:
+            return "base:" + base[t]
+    except TypeError:
+        pass
+    origin = typing.get_origin(t)
+    if origin is None:
+        return "otherPlain"
+    if origin in (collections.abc.Sequence, list, tuple):
+        args = typing.get_args(t)
+        try:
+            if args and args[0] in base:
+                return "seqOf:" + base[args[0]]
+        except TypeError:
+            pass
+    return "otherOrigin"
+
+
 def sig_rows(sig, pyfunc) -> list[dict]:
+    import typing
+
     import onnx_ir as ir
 
     pysig = inspect.signature(pyfunc)
     kinds = {p.name: p.kind.name for p in pysig.parameters.values()}
+    try:
+        hints = typing.get_type_hints(pyfunc)
+    except Exception:
+        hints = {}
+    extra = {
+        p.name: {"annot": annot_category(hints, p.name), "pyDefault": p.default is not inspect.Parameter.empty}
+        for p in pysig.parameters.values()
+    }
     out = []
     for p in sig.params:
         if isinstance(p, ir.schemas.AttributeParameter):
@@ -156,6 +196,7 @@ def sig_rows(sig, pyfunc) -> list[dict]:
                     "required": bool(p.required),
                     "variadic": False,
                     "pok": kinds.get(p.name) == "POSITIONAL_OR_KEYWORD",
+                    **extra.get(p.name, {"annot": "otherPlain", "pyDefault": False}),
                 }
             )
         else:
@@ -167,6 +208,7 @@ def sig_rows(sig, pyfunc) -> list[dict]:
                     "required": bool(p.required),
                     "variadic": bool(p.variadic),
                     "pok": kinds.get(p.name) == "POSITIONAL_OR_KEYWORD",
+                    **extra.get(p.name, {"annot": "otherPlain", "pyDefault": False}),
                 }
             )
     return out
@@ -298,10 +340,14 @@ def lean_aarg(a: dict) -> str:
     return f"⟨{lstr(a['name'])}, .{a['base']}, {lbool(a['isList'])}, {lbool(a['optional'])}, {lbool(a['hasDefault'])}⟩"
 
 
+def lannot(a: str) -> str:
+    return "." + a.replace(":", " .")
+
+
 def lean_param(p: dict) -> str:
     return (
         f"⟨{lstr(p['name'])}, {lbool(p['isInput'])}, .{p['attr']}, {lbool(p['required'])}, "
-        f"{lbool(p['variadic'])}, {lbool(p['pok'])}⟩"
+        f"{lbool(p['variadic'])}, {lbool(p['pok'])}, {lannot(p['annot'])}, {lbool(p['pyDefault'])}⟩"
     )
 
 
